@@ -292,12 +292,10 @@ func ruleStickyEnd(c *Ctx, r *R) {
 			}
 		}
 		pf := &PF{N: 3} // 0 = predicate not known false, 1 = predicate false & done not set, 2 = predicate false & done set
-		pf.Edge = func(f *ssa.Function, b *ssa.BasicBlock, idx int, q int) (StateSet, bool) {
-			iff, ok := b.Instrs[len(b.Instrs)-1].(*ssa.If)
-			if !ok {
-				return 0, false
-			}
-			v, val := guard{cond: iff.Cond, val: idx == 0}.boolVal()
+		pf.Edge = func(f *ssa.Function, g guard, q int) (StateSet, bool) {
+		b := g.blk
+		_ = b
+			v, val := g.boolVal()
 			if v == okVal && !val && q == 0 {
 				return ss(1), true
 			}
